@@ -241,7 +241,50 @@ def m3(chk, repo):
                 chk.ok("M3", key, wh, "spanwise axis reversed")
 
 
+import re as _re
+
+_ORIENT = _re.compile(r"abs\((?P<s>[A-Za-z_.]+(?:\[\w+\])?)\['mesh'\]\[\(0, (?:0|-1), 1\)\]\)\s*[<>]=?\s*abs\((?P=s)\['mesh'\]")
+
+
+def m4(chk, repo):
+    """Only a symmetric half has a hand."""
+    from .common import all_models, NEVER_INSTANTIATED, POSTPROCESSING
+
+    chk.rule("M4", "the orientation predicate (|y| of the first against the last spanwise node of the configuration mesh) is consulted only for surfaces modelled with symmetry: in every option valuation of every component method in which the predicate decides something, the symmetry flag of the same surface has been consulted and is true.  A full-span surface has no hand; branching on which of its tips is further from y=0 treats a laterally offset or unequal-span wing differently from its mirror image", min_decided=5)
+    for m in all_models(repo, chk):
+        c = m.cls
+        if c.name in POSTPROCESSING or c.name in NEVER_INSTANTIATED:
+            continue
+        for mname, runs in m.runs.items():
+            seen = {}
+            for r in runs:
+                for k in r.sigma:
+                    mo = _ORIENT.search(k)
+                    if not mo:
+                        continue
+                    surf = mo.group("s")
+                    symk = [k2 for k2 in r.sigma if k2.replace(" ", "") in ("%s['symmetry']" % surf, "%s[\"symmetry\"]" % surf)]
+                    ok = bool(symk) and all(r.sigma[k2] for k2 in symk)
+                    if not symk and mname not in ("setup", "configure", "initialize", "__init__"):
+                        # the flag may be implied: setup() refuses the other value under this valuation
+                        # (ground effect without symmetry raises), so every setup valuation that can
+                        # precede this run has the flag set
+                        svs = m.setup_for(r.sigma)
+                        if svs and all(any(k2.replace(" ", "") == "%s['symmetry']" % surf and v2 for k2, v2 in sv.sigma.items()) for sv in svs):
+                            ok = True
+                    key = "%s.%s: orientation of %s" % (c.name, mname, surf)
+                    st = seen.setdefault(key, [])
+                    st.append((ok, sig_txt(r.sigma)))
+            for key, lst in sorted(seen.items()):
+                bad = [t for ok, t in lst if not ok]
+                if bad:
+                    chk.violation("M4", key, c.where, "the orientation predicate is consulted while the surface's symmetry flag is false or was never consulted (valuation %s): the hand of a full-span surface decides a branch, so the mirror image of a laterally offset / unequal-span wing is not treated as its mirror image" % bad[0])
+                else:
+                    chk.ok("M4", key, c.where, "consulted under symmetry only (%d valuations)" % len(lst))
+
+
 def run(chk, repo, tier):
     m1(chk, repo)
     m2(chk, repo)
     m3(chk, repo)
+    m4(chk, repo)
